@@ -10,6 +10,7 @@ from ai_edge_quantizer import qtyping
 THEOREMS = [
     "C17.rn_mono", "C17.rn_relerr", "C17.sym_zp_zero", "C17.scale_pos", "C17.zero_exact",
     "C17.q_in_range", "C17.q_mono", "C17.q_dq_ideal", "C17.dq_q_ideal", "C17.cover_ideal",
+    "C17.zp_in_range", "C17.q_dq_rounded", "C17.dq_q_rounded",
 ]
 
 
@@ -139,7 +140,7 @@ def run(ctx):
                 "bit-exactly with the Lean model and checked by the C17 oracle; distinct = distinct canonical inputs")
     ctx.explanation = ("Theorems (QProps/C17.lean) are proved for all rationals / all integer codes over the model; the float32 claims use the "
                        "proved standard-model properties of the model's rounding operator. Correspondence ties the model to the code bit for bit.")
-    common.proof_side(ctx, THEOREMS)
+    common.proof_side(ctx, THEOREMS, modules=["QProps.C17", "QProps.C17b"])
     drv = common.Driver()
     rng = ctx.rng
     n_par = 250 if ctx.tier == "quick" else 4000
